@@ -33,7 +33,7 @@ from harness.rigs import request as rreq
 from harness.rigs import request_state as rstate
 
 EXE = "drv_c05"
-ROOT_KINDS = ["node", "nic", "service", "application", "fileSystem", "folder"]
+ROOT_KINDS = ["node", "nic", "service", "application", "fileSystem", "folder", "nodeOs", "fsDelete", "domain"]
 
 
 # ------------------------------------------------------------------------------------------ the contract, read from Lean
@@ -72,6 +72,9 @@ class Roots:
         from primaite.simulator.system.services.service import Service
         self.by_rm: Dict[int, Tuple[str, Any, Any]] = {}
         self.keep: List[Any] = []
+        dom = getattr(sim, "domain", None)
+        if dom is not None:
+            self._add("domain", dom, None)
         for node in sim.network.nodes.values():
             self._add("node", node, node)
             self._add_rm("nodeOs", getattr(node, "_os_request_manager", None), node, node)
@@ -199,10 +202,12 @@ def judge_request(rules, exists: bool, outcome: str, action_guards: Optional[Lis
             return {"kind": "contract-rule-not-enforced", "rule": atom.split(":")[0], "component": kind, "class": cls,
                     "depth": d, "outcome": parts[0]}
         return None
-    if action_guards is not None and exists and all(r[2] is True for r in rules) and parts[0] == "failure":
-        # the contract of an ACTION is exact (C05_route_guards is an equality): all its rules hold, the target exists
-        if {r[1] for r in rules} == set(action_guards):
-            return {"kind": "refused-by-a-rule-outside-the-contract", "depth": int(parts[1]), "outcome": parts[0]}
+    if parts[0] == "failure" and all(r[2] is True for r in rules):
+        # the contract is EXACT and COMPLETE (C05_contract_exact: every component root carries exactly its gates, every other
+        # manager no rule at all): with stubbed handlers a `failure` can only come from a validator, and every rule the contract
+        # knows on this route holds — so a rule OUTSIDE the contract refused it (type-specific verbs carry none).
+        # (a rule this oracle cannot evaluate — group membership needs a context — has value None: no judgement)
+        return {"kind": "refused-by-a-rule-outside-the-contract", "depth": int(parts[1]), "outcome": parts[0]}
     return None
 
 
